@@ -238,8 +238,10 @@ def r3_byte_source(ctx) -> None:
     from ..tabulate import Raised
     from .standins import string_standin
     Str, _Cased, _PH, sc, _env = string_standin(ctx)
-    parts = ["a*b?", sc.WILDCARD_MULTI, "c\\d", sc.WILDCARD_SINGLE, "\u00e9"]
-    chars = "a*b?*c\\d?\u00e9"
+    # … and characters that Unicode normalisation would change (a decomposed accent, the ohm sign): the payload is the
+    # characters as written, byte for byte
+    parts = ["a*b?", sc.WILDCARD_MULTI, "c\\d", sc.WILDCARD_SINGLE, "\u00e9e\u0301\u2126"]
+    chars = "a*b?*c\\d?\u00e9e\u0301\u2126"
     try:
         got = Str(parts).call("__bytes__")
     except Raised as ex:
